@@ -266,6 +266,8 @@ def sdesc_local(B, l, depth=0):
 def sdesc_rv(B, rv, depth=0):
     """structural description of an rvalue (see sdesc_local)"""
     k = rv['k']
+    if k == 'cast' and PHI and str(rv.get('cast', '')).startswith(('IntToInt', 'FloatToInt', 'IntToFloat', 'FloatToFloat')):
+        return 'as<%s>(%s)' % (_short_ty(rv.get('to', '')), sdesc_operand(B, rv['op'], depth))          # numeric casts can truncate: the target type is part of the value
     if k in ('use', 'cast'):
         return sdesc_operand(B, rv['op'], depth)
     if k in ('ref', 'copyforderef'):
